@@ -59,7 +59,12 @@ Inductive fcase : Type :=
 | FTrace (kind : N) (p : bytes) (value : bytes) (evs : list (fsop * bool))
 | FCrash (oldlist : bool) (blobs : list bytes) (fs0 : list (bytes * N))
          (p alt tmp : bytes) (newi : N) (evs : list (eop * bool)) (killed : bool)
-         (obs : list crashobs).
+         (obs : list crashobs)
+(* a save that FAILS (the store directory is away during Finish) and is then retried by the same
+   engine (Finish again, directory back): failed = the first Finish reported an error; got = the
+   session the store holds afterwards (decoded, canonical text); want = what it holds after the same
+   history without the failure *)
+| FRetry (failed : bool) (got want : bytes).
 
 (* ---- traces ------------------------------------------------------------------------------- *)
 
@@ -159,6 +164,7 @@ Definition obs_corr (blobs : list bytes) (fs : list (bytes * bytes)) (ops : list
 Definition case_corr_ok (c : fcase) : bool :=
   match c with
   | FTrace kind p value evs => trace_ok kind p value evs
+  | FRetry failed _ _ => failed     (* the injection worked: nothing else is modelled here *)
   | FCrash oldlist blobs fs0 p alt tmp newi evs killed obs =>
     let fs := mk_fs blobs fs0 in
     let new := blob blobs newi in
@@ -195,6 +201,9 @@ Definition c12_obs_ok (blobs : list bytes) (fs : list (bytes * bytes)) (p new : 
 Definition c12_case_ok (c : fcase) : bool :=
   match c with
   | FTrace _ _ _ _ => true
+  (* a failed save leaves the old record, and the retried save stores the session the engine holds:
+     never an emptied or mixed one *)
+  | FRetry _ got want => bytes_eqb got want
   | FCrash _ blobs fs0 p _ _ newi _ _ obs =>
     forallb (c12_obs_ok blobs (mk_fs blobs fs0) p (blob blobs newi)) obs
   end.
@@ -217,6 +226,7 @@ Definition selftest_case_ok (c : fcase) : bool :=
   | FTrace kind p value evs =>
     negb (trace_ok kind p value evs)
     && list_eqb fsop_eqb (map fst evs) (put_ops_old p value) && forallb (fun e => snd e) evs
+  | FRetry _ _ _ => false
   end.
 Definition selftest_ok (st : list fcase) : bool :=
   existsb (fun c => match c with FTrace _ _ _ _ => true | _ => false end) st
